@@ -19,9 +19,9 @@ type GVal struct {
 	B    bool
 }
 
-func VS(s string) GVal { return GVal{Kind: "s", S: s} }
-func VI(i int) GVal    { return GVal{Kind: "i", I: i} }
-func VB(b bool) GVal   { return GVal{Kind: "b", B: b} }
+func VS(s string) GVal  { return GVal{Kind: "s", S: s} }
+func VI(i int) GVal     { return GVal{Kind: "i", I: i} }
+func VB(b bool) GVal    { return GVal{Kind: "b", B: b} }
 func VR(id string) GVal { return GVal{Kind: "r", S: id} }
 
 type GProp struct {
